@@ -6,7 +6,9 @@ fn main() {
     let mut rnd = move || { seed = seed.wrapping_mul(6364136223846793005).wrapping_add(1442695040888963407); ((seed >> 33) as f64 / (1u64 << 31) as f64) * 2.0 - 1.0 };
     for trial in 0..400 {
         let dn = 1 + (trial % 12); let dd = trial % 7;
-        let mut a: Vec<f64> = (0..=dn).map(|_| rnd() * 3.0).collect();
+        // magnitudes up to 1e9: rounding residues of the eliminated leading term then exceed the zero tolerance and the loop meets the same power twice
+        let mag = [1.0, 1e4, 1e8, 1e9][(trial / 5) % 4];
+        let mut a: Vec<f64> = (0..=dn).map(|_| rnd() * 3.0 * mag).collect();
         let mut d: Vec<f64> = (0..=dd).map(|_| rnd() * 2.0).collect();
         if d[0].abs() < 0.1 { d[0] = 0.5; }
         if a[0].abs() < 0.1 { a[0] = 1.0; }
